@@ -124,7 +124,7 @@ package lint
 //@      implies(src == CABFSMIMEBaselineRequirements, util.IsEmailProtectionCert(c)) &&
 //@      implies(src == CABFCSBaselineRequirements,    util.IsCodeSigning(c.PolicyIdentifiers))
 
-//@ func (*CertificateLint).execute [C01 C03 C04 C11]
+//@ func (*CertificateLint).execute [C01 C03 C04 C10 C11]
 //@   requires l != nil && cert != nil && l.Lint != nil && cfgOK(config)
 //@   maypanic
 //@   assigns \fresh
@@ -148,7 +148,7 @@ package lint
 //@                    inWindow(old(l.EffectiveDate), old(l.IneffectiveDate), old(cert.NotBefore)),
 //@              g.nExec == 1 && g.recvExec == g.retCtor && g.tApplies < g.tExec && result == g.retExec)
 
-//@ func (*CertificateLint).Execute [C01 C03 C04 C11]
+//@ func (*CertificateLint).Execute [C01 C03 C04 C10 C11]
 //@   requires l != nil && cert != nil && l.Lint != nil && cfgOK(config)
 //@   nopanic
 //@   assigns \fresh
@@ -158,7 +158,7 @@ package lint
 //@              result.Status != Pass && result.Status != Notice && result.Status != Warn && result.Status != Error)
 //@   ensures [C04] implies(!g.panicked && !old(inScope(l.Source, cert)), result.Status == NA)
 
-//@ func (*RevocationListLint).Execute [C01 C03 C04 C11]
+//@ func (*RevocationListLint).Execute [C01 C03 C04 C10 C11]
 //@   requires l != nil && r != nil && l.Lint != nil && cfgOK(config)
 //@   maypanic
 //@   assigns \fresh
@@ -176,7 +176,7 @@ package lint
 //@                    inWindow(old(l.EffectiveDate), old(l.IneffectiveDate), old(r.ThisUpdate)),
 //@              g.nExec == 1 && g.recvExec == g.retCtor && g.tApplies < g.tExec && result == g.retExec)
 
-//@ func (*OcspResponseLint).Execute [C01 C03 C04 C11]
+//@ func (*OcspResponseLint).Execute [C01 C03 C04 C10 C11]
 //@   requires l != nil && o != nil && l.Lint != nil && cfgOK(config)
 //@   maypanic
 //@   assigns \fresh
